@@ -99,7 +99,44 @@ func newStats(t testing.TB, property, rule string) *stats {
 	t.Cleanup(func() { s.Done = true; s.flush() })
 	activeStats = s
 	sim.OnWedge = wedgeHandler
+	startDeadman()
 	return s
+}
+
+var deadmanOnce sync.Once
+
+// startDeadman: cases stop being started at the soft deadline; if the process is still busy at 80 % of its hard
+// timeout (VERIF_DEADMAN, set by the driver) one case is not returning. The deadman then ends the process in an orderly
+// way instead of leaving it to be killed without statistics: for C08, and only if the goroutine profiles confirm that
+// a call made by the harness is parked for good inside the node, that is a violation; otherwise what was explored so
+// far stands and the unfinished case is recorded as not decided.
+func startDeadman() {
+	deadmanOnce.Do(func() {
+		var at int64
+		fmt.Sscan(os.Getenv("VERIF_DEADMAN"), &at)
+		if at <= 0 {
+			return
+		}
+		go func() {
+			time.Sleep(time.Until(time.Unix(at, 0)))
+			s := activeStats
+			if s == nil || s.Done {
+				return
+			}
+			ok, stacks := sim.ConfirmStuck(5, 400*time.Millisecond)
+			if ok && s.Property == "C08" {
+				s.reportOnce("node-wedged", "a call into the node had not returned at 80 % of the process's time limit and every goroutine inside the node is parked, unchanged over 5 profiles:\n"+stacks, map[string]string{"by": "deadman"})
+			} else {
+				s.label("deadman:a-case-had-not-returned-at-80%-of-the-time-limit(not-decided)")
+				s.note("deadman: the process was still inside one case at 80 %% of its time limit (node parked for good: %v); that case is not decided, the statistics cover what was explored before", ok)
+			}
+			s.mu.Lock()
+			s.Done = true
+			s.flushLocked()
+			s.mu.Unlock()
+			os.Exit(0)
+		}()
+	})
 }
 
 var activeStats *stats
